@@ -333,6 +333,10 @@ func (x *X) queryOracles(o *Outcome, op Op, st *store.Store) {
 	for k, d := range o.Contract {
 		x.Viol("C18", "contract", k, d)
 	}
+	x.R.Probes["operator-edges-checked"] += o.ContractStats[0]
+	x.R.Probes["next-calls-checked"] += o.ContractStats[1]
+	x.R.Probes["series-calls-checked"] += o.ContractStats[2]
+	x.R.Probes["ended-streams-probed"] += o.ContractStats[3]
 	for _, w := range o.WF {
 		k := w
 		if i := strings.Index(w, ":"); i > 0 {
